@@ -293,10 +293,11 @@ Definition scripts_of (c : bcase) : list script :=
   [script_of (debug_pd (bc_te c)); script_of (unused_ret_pd (bc_te c))].
 
 (* memoized-ness as nject decided it (fm.memoized), not as annotated *)
-Definition fix_cached (funcs : list prov) (s : script) : script :=
+Definition fix_cached (te : tyenv) (funcs : list prov) (s : script) : script :=
   match filter (fun p => p_pid p =? sc_pid s) funcs with
   | p :: _ =>
-    let cached := if s_memoized (p_s p) then 1
+    (* inputs whose types can never be map keys are not cached: the function is called each time *)
+    let cached := if s_memoized (p_s p) then (if forallb (mapkey_t te) (pflow p FIn) then 1 else 0)
                   else if d_singleton (s_d (p_s p)) && (class_eqb (p_class p) ClStatic || class_eqb (p_class p) ClFallibleStatic) then 2
                   else 0 in
     mkScript (sc_pid s) (sc_outs s) (sc_failmask s) cached (sc_calls s) (sc_passthru s) (sc_innerIns s) (sc_innerOuts s)
@@ -314,7 +315,11 @@ Definition rp_of (te : tyenv) (p : prov) (zero : list nat) : rp :=
        (match p_class p with ClFallible => [] | _ => pflow p FRet end)
        (map (remap (p_upR p)) (pflow p FRecv))
        zero'
-       (match index_of (te_terminalT te) (orig_outs p) 0 with Some i => i | None => 0 end).
+       (match p_class p with
+        | ClFallible | ClFallibleStatic =>
+          match index_of (te_terminalT te) (orig_outs p) 0 with Some i => i | None => 0 end
+        | _ => 0
+        end).
 
 Definition splan_of (te : tyenv) (pl : plan) : option splan :=
   let inc := filter (fun pz : prov * list nat => p_include (fst pz)) (sl_funcs (pl_slots pl)) in
@@ -405,6 +410,7 @@ Definition plan_wf (te : tyenv) (pl : plan) (b : bound) : bool :=
     slots_ok_b sl &&
     (length (bd_base0 b) =? sl_count sl) &&
     forallb (fun i => is_invalid (aget i (bd_base0 b))) (slot_idx (sl_up sl)) &&
+    forallb well_classed (sp_run sp) &&
     forallb (covered_b sl (te_errorT te)) (sp_run sp) &&
     forallb (covered_s_b sl) (sp_static sp) &&
     (match sp_init sp with Some ir => forallb (fun t => is_some (sd_of sl t)) (r_ins ir) | None => true end) &&
@@ -432,7 +438,7 @@ Definition model_run (c : bcase) : obs :=
   | Panic e => mkObs (Panic e) [] [] [] [] true
   | Ok (pl, b) =>
     let te := bc_te c in
-    let scripts := map (fix_cached (pl_funcs pl)) (scripts_of c) in
+    let scripts := map (fix_cached te (pl_funcs pl)) (scripts_of c) in
     let steps := map (fun isInvoke : bool => if isInvoke then DoInvoke else DoInit) (bc_session c) in
     let '(s, results) := run_session sw (s_beh_fn te scripts) (s_beh_wrap te scripts) b
                                      (mkSess sw (mkSw 0 [] []) (bd_base0 b) false true) steps in
